@@ -269,7 +269,8 @@ func PgRoundTripText(stmt string) string {
 
 // PgBooleanOperand: decidable class of the known pg_query finding. The statement has a boolean-valued
 // expression – AND/OR/NOT, an IS [NOT] NULL / IS TRUE test, or an IN/ANY/ALL sub-select with a test
-// expression – as an operand of an operator expression (incl. BETWEEN bounds) or of an IS NULL / IS TRUE test.
+// expression – as an operand of an operator expression (incl. BETWEEN bounds) or of an IS NULL / IS TRUE test, or an
+// AND/OR/NOT as the argument of a CAST (printed with the `::` operator).
 // libpg_query's deparser prints such operands without the parentheses they need
 // (1 + (b in (select …)) → 1 + b IN (SELECT …); (a or b) is null → a OR b IS NULL).
 func PgBooleanOperand(stmt string) bool {
@@ -385,6 +386,15 @@ func PgBooleanOperand(stmt string) bool {
 							}
 							if _, isList := l["Node"].(map[string]interface{})["List"]; isList {
 								scan(l)
+							}
+						}
+					case "TypeCast":
+						// CAST(<AND/OR/NOT> AS t) is deparsed as `NOT a::t` – the cast binds to the last operand only
+						if a, ok := m["arg"].(map[string]interface{}); ok {
+							if n, ok := a["Node"].(map[string]interface{}); ok {
+								if _, ok := n["BoolExpr"]; ok {
+									found = true
+								}
 							}
 						}
 					case "NullTest", "BooleanTest":
